@@ -73,11 +73,6 @@ var verifC31OverlongDeviations = []string{verifC31Over, verifC31OverDrop, verifC
 var verifC31Deviations = append([]string{verifC31IgnoreRange, verifC31DropConn, verifC31Drop0, verifC31DropMid, verifC31IgnoreDrop,
 	verifC31Short, verifC31Corrupt, verifC31Err500, verifC31Redirect, verifC31Err416, verifC31Lie206}, verifC31OverlongDeviations...)
 
-// verifC31OverlongCompanions: in scripts with three deviations (thorough tier) an over-long behaviour is only combined with
-// these (and with other over-long behaviours): the ones that make the client resume, start over, or go through the
-// hash-mismatch retry. Scripts with at most two deviations use the full alphabet.
-var verifC31OverlongCompanions = []string{verifC31IgnoreRange, verifC31DropMid, verifC31Corrupt, verifC31Err500, verifC31Lie206}
-
 // ---- pre-existing .partial states ----
 
 var verifC31Partials = []string{"none", "empty", "prefix-ok", "prefix-bad", "prefix-bad-long", "full-ok", "full-bad", "overlong"}
@@ -326,7 +321,22 @@ type verifC31Harness struct {
 }
 
 func verifC31NewHarness(t *testing.T) *verifC31Harness {
-	h := &verifC31Harness{base: t.TempDir(), content: verifC31Content()}
+	// scratch space under $VERIF_WORK when set: /tmp is swept by other jobs on this machine, and r.Finish exits the
+	// process before t.TempDir's cleanup could run
+	base := ""
+	if w := os.Getenv("VERIF_WORK"); w != "" {
+		if err := os.MkdirAll(filepath.Join(w, "tmp"), 0755); err != nil {
+			eng.HarnessError("C31: %v", err)
+		}
+		d, err := os.MkdirTemp(filepath.Join(w, "tmp"), "c31-")
+		if err != nil {
+			eng.HarnessError("C31: %v", err)
+		}
+		base = d
+	} else {
+		base = t.TempDir()
+	}
+	h := &verifC31Harness{base: base, content: verifC31Content()}
 	sum := sha3.Sum384(h.content)
 	h.digest = hex.EncodeToString(sum[:])
 	dirs.SetRootDir(filepath.Join(h.base, "root"))
@@ -490,7 +500,7 @@ func verifC31Scripts(maxDev int) [][]string {
 	var out [][]string
 	var rec func(cur []string, devs, oks int)
 	rec = func(cur []string, devs, oks int) {
-		if (len(cur) == 0 || cur[len(cur)-1] != verifC31OK) && verifC31ScriptAdmitted(cur) {
+		if len(cur) == 0 || cur[len(cur)-1] != verifC31OK {
 			out = append(out, append([]string(nil), cur...))
 		}
 		if oks == 0 && devs < maxDev {
@@ -504,37 +514,6 @@ func verifC31Scripts(maxDev int) [][]string {
 	}
 	rec(nil, 0, 0)
 	return out
-}
-
-// verifC31ScriptAdmitted: scripts with more than two deviations that contain an over-long behaviour only combine it
-// with the companion sub-menu (keeps the thorough tier inside its budget); everything else is admitted.
-func verifC31ScriptAdmitted(script []string) bool {
-	if verifC31Devs(script) <= 2 {
-		return true
-	}
-	in := func(list []string, b string) bool {
-		for _, x := range list {
-			if x == b {
-				return true
-			}
-		}
-		return false
-	}
-	over := false
-	for _, b := range script {
-		if in(verifC31OverlongDeviations, b) {
-			over = true
-		}
-	}
-	if !over {
-		return true
-	}
-	for _, b := range script {
-		if b != verifC31OK && !in(verifC31OverlongDeviations, b) && !in(verifC31OverlongCompanions, b) {
-			return false
-		}
-	}
-	return true
 }
 
 func verifC31Devs(script []string) int {
@@ -562,7 +541,7 @@ func (c verifC31Case) key(consumed []string) string {
 
 func TestC31(t *testing.T) {
 	r := eng.Start("C31", "fault_enumeration", 240*time.Second, 16*time.Minute)
-	r.Assume("the HTTP server is a model (httptest server scripted per request); its 15 behaviours (correct service + 14 deviations, three of them bodies longer than declared) are the fault alphabet; in scripts with 3 deviations the over-long behaviours are only combined with each other and with ignore-range, drop-mid, corrupt, 500, 206-full",
+	r.Assume("the HTTP server is a model (httptest server scripted per request); its 15 behaviours (correct service + 14 deviations, three of them bodies longer than declared) are the fault alphabet",
 		"content is 64 distinct bytes with declared size and SHA3-384; larger bodies (multi-chunk copies) are not covered",
 		"retry strategy replaced by a sleep-free LimitCount(n) (n = 7 as in production; n = 2, to reach exhaustion, for scripts with at most 2 deviations)",
 		"transfer-speed monitor, rate limiting, deltas, authentication refresh and context cancellation are not exercised",
@@ -592,6 +571,7 @@ func TestC31(t *testing.T) {
 				r.Violation(c.key(res.Consumed)+":"+bad, fmt.Sprintf("call %d: %s (error=%q target=%s cache=%v served=%v)", i+1, bad, call.Err, call.Target, call.Cache, call.Served), c)
 			}
 		}
+		os.RemoveAll(h.base)
 		r.Finish("replay")
 	}
 
@@ -605,8 +585,8 @@ func TestC31(t *testing.T) {
 		}
 	}
 	r.Info("bounds", map[string]int{"max_deviations": maxDev, "scripts": len(scripts), "deviating_behaviours": len(verifC31Deviations),
-		"overlong_behaviours": len(verifC31OverlongDeviations), "overlong_companions_in_3_deviation_scripts": len(verifC31OverlongCompanions),
-		"partial_states": len(verifC31Partials), "leave_partial_values": 2, "retry_limits": len(retries), "cases": total, "content_bytes": verifC31Size})
+		"overlong_behaviours": len(verifC31OverlongDeviations),
+		"partial_states":      len(verifC31Partials), "leave_partial_values": 2, "retry_limits": len(retries), "cases": total, "content_bytes": verifC31Size})
 
 	if r.Sharded(16) {
 		r.Add("distinct_nontrivial", int64(r.DistinctCount("nontrivial_case")))
@@ -711,5 +691,6 @@ outer:
 	if _, n := r.ShardIndex(); n <= 1 {
 		r.Add("distinct_nontrivial", int64(r.DistinctCount("nontrivial_case")))
 	}
+	os.RemoveAll(h.base)
 	r.Finish(rule)
 }
